@@ -26,7 +26,8 @@ pub fn plain(v: &Value) -> Value {
         return Value::String(text(s));
     }
     if let Some(n) = o.get("n") {
-        return json!(text(n).parse::<u64>().unwrap());
+        let s = text(n);
+        return if s.starts_with('-') { json!(s.parse::<i64>().unwrap()) } else { json!(s.parse::<u64>().unwrap()) };
     }
     if let Some(u) = o.get("u") {
         return Value::String(text(u));
